@@ -81,6 +81,7 @@ def run(res):
     res.oblige("correspondence(extracted model): Grammar.parse_expr = document::expr and Eval.run = Expr::run on %d texts" % len(rows),
                not mism, "first of %d: %r" % (len(mism), mism[0]) if mism else "")
     res.extra["distribution"] = dict(dist, evaluation_errors=errs, parse_failures=sum(1 for r in rows if r[1] == "NOPARSE"))
+    run_deep(res, vh, exe)
     res.extra["exhaustive"] = False
     res.rule = ("texts: (a) every binary operator x 32x32 boundary operands, every unary operator and byte/word function x 32 operands, "
                 "every ordered pair of binary operators in both nestings and every unary/binary nesting; (b) random trees (depth<=5) "
@@ -91,6 +92,45 @@ def run(res):
                    for (t, _, _), r in list(zip(cases, rows))[:3] + list(zip(cases, rows))[-2:]]
     res.assume = ["Spec/ExprSpec.v is my transcription of the AVR assembler operator table (log2 and page are outside it)",
                   "the evaluation context of this interface is fixed (.equ seven/big/neg, label lab); symbol handling is C10"]
+
+
+def deep_programs():
+    """expressions in their real context (a program, symbols defined by computed .equ definitions): long operator chains,
+    deep parentheses / unary / function nesting around such a symbol, and chains of computed definitions - the value is the
+    arithmetic one whatever the size of the expression, up to the documented definition depth (64).
+    -> [(source, expected 16-bit value or None = only the correspondence with the model is demanded)]"""
+    out = []
+    for n in (1, 10, 31, 32, 33, 62, 63, 64, 65, 66, 100, 127, 128, 129, 300):
+        out.append((".equ s = 2*3\n .dw s%s\n" % (" + 1" * n), 6 + n))
+        out.append((".equ s = 2*3\n .dw %ss\n" % ("1 + " * n), 6 + n))
+        out.append((".equ s = 2*3\n .dw %ss%s\n" % ("(" * n, ")" * n), 6))
+        out.append((".equ s = 2*3\n .dw %ss%s\n" % ("(1+" * n, ")" * n), 6 + n))
+        out.append((".equ s = 2*3\n .dw %ss\n" % ("-" * (2 * (n // 2))), 6))
+        out.append((".equ s = 2*3\n .dw %ss\n" % ("~" * (2 * (n // 2))), 6))
+        out.append((".equ s = 2*3\n .dw %ss%s\n" % ("low(" * n, ")" * n), 6))
+        out.append((".equ s = 2*3\n ldi r16, %ss%s\n" % ("low(1+" * n, ")" * n), None))
+        out.append((".set s = 2*3\n .dw s%s\n" % (" * 1" * n), 6))
+        out.append(("lbl: nop\n.equ s = lbl + 6\n .dw s%s\n" % (" - 0" * n), None))
+    for n in (1, 5, 20, 31, 32, 33, 50, 60, 62, 63, 64, 65, 70):
+        defs = [".equ o0 = 1*1"] + [".equ o%d = o%d + 2" % (i, i - 1) for i in range(1, n + 1)]
+        out.append(("\n".join(defs) + "\n .dw o%d\n" % n, (1 + 2 * n) if n <= 60 else None))
+        out.append(("\n".join(reversed(defs)) + "\n .dw o%d\n" % n, (1 + 2 * n) if n <= 60 else None))
+        out.append(("\n".join(defs) + "\n .dw o%d + o%d + 1\n" % (n, n // 2), (1 + 2 * n + 1 + 2 * (n // 2) + 1) if n <= 60 else None))
+    return out
+
+
+def run_deep(res, vh, exe):
+    from . import progcheck as P, progrun
+    cases = deep_programs()
+    obs = P.correspond(res, vh, exe, [c[0] for c in cases], "programs with long / deep expressions over computed symbols")
+    for text, want in cases:
+        if want is None:
+            continue
+        a = progrun.parse_obs(obs[text][0])
+        exp = "%02x%02x" % (want % 256, (want // 256) % 256)
+        if a["kind"] != "OK" or not a["code"].endswith(exp):
+            res.failing.append(dict(interface="builder::build_str", input=dict(source=text), expected="last word %s (= %d)" % (exp, want),
+                                    observed=obs[text][0][:100], cls="value:deep"))
 
 
 def match_known(f, entry):
@@ -105,6 +145,15 @@ def replay(path):
         return 1
     vh = C.build_harness("debug")
     exe = C.build_model()
+    if "source" in i:
+        from . import progrun
+        a = progrun.parse_obs(progrun.run_texts(vh, exe, [i["source"]])[0][1])
+        exp = r["expected"].split(" ")[2]
+        if a["kind"] != "OK" or not a["code"].endswith(exp):
+            print("VIOLATION property=%s replay=%s" % (PROP, path))
+            return 1
+        print("replay: property now holds on this input")
+        return 0
     row = run_exprs(vh, exe, [i["text"]])[0]
     exp = r["expected"][4:] if r["expected"].startswith("AST ") else None
     _, fail = classify(i["text"], exp, i.get("stream", "replay"), row)
